@@ -62,3 +62,56 @@ package resource
 //@   option only guard lock call
 //@   replay CollectionGenIDRace()
 //@   requires recv != nil && held(recv.mu) && !held(recv.rngMu)
+//@
+//@ property C01 C04 C05 C06 C07
+//@ // ---- what callbacks supplied by callers may do (assumptions about code outside the module, listed in the evidence) ----
+//@ callback WriteRequest.expectedCheck: pure
+//@ callback UpdateInterceptor: writes arg 1
+//@ callback WriteRequest.idCallback: modifies msgs
+//@ callback WriteRequest.createdCallback: modifies nothing
+//@ callback config.idInterceptor: pure
+//@ callback Clock.Now: modifies nothing
+//@ callback Comparer.Compare: pure
+//@ callback writeOptionFunc: closed
+//@ callback readOptionFunc: closed
+//@ callback optionFunc: closed
+//@
+//@ pure func wfValue(r) = r != nil && r.config != nil && !isnil(r.config.clock)
+//@
+//@ // ---- Value as a register ----
+//@ func (*Value).get(req) (res)
+//@   requires wfValue(recv) && req != nil
+//@   requires [mask-valid] req.ReadMask == nil || isnil(recv.value) || pathsvalid(req.ReadMask.Paths, recv.value)
+//@   ensures [nil-mask] req.ReadMask == nil ==> equalmsg(res, recv.value)
+//@   ensures [projection] req.ReadMask != nil && !isnil(recv.value) && len(req.ReadMask.Paths) > 0 ==> sametype(res, recv.value) && msgval(res) == filtered(msgval(recv.value), req.ReadMask.Paths)
+//@   ensures [read-only] recv.value == old(recv.value) && recv.changeTime == old(recv.changeTime) && msgval(recv.value) == old(msgval(recv.value))
+//@   modifies nothing
+//@
+//@ // C05: the writable set handed to the updater is exactly the statement's W: every field when the resource has no
+//@ // writable-field restriction or the call lifts it, otherwise the union of the resource's and the call's extra fields
+//@ func (WriteRequest).fieldUpdater(writableFields) (u)
+//@   ensures [fresh] u != nil && fresh(u)
+//@   ensures [update-mask] u.updateMask == recv.UpdateMask
+//@   ensures [reset-mask] u.resetMask == recv.resetMask
+//@   ensures [all-writable] (recv.nilWritableFields || writableFields == nil) ==> u.writableFields == nil
+//@   ensures [writable-union] !recv.nilWritableFields && writableFields != nil ==> u.writableFields != nil && isunion(u.writableFields, writableFields, recv.moreWritableFields)
+//@   ensures [no-cache] u.intersectionMask == nil
+//@   modifies nothing
+//@
+//@ func (*Value).set(value, request) (res, err)
+//@   requires wfValue(recv) && !isnil(value)
+//@   requires value != recv.value     // callers hand in their own message, never the stored one
+//@   track Send
+//@   // C01: a failing call changes nothing and emits nothing (the only error after the commit is the send timeout, C09)
+//@   ensures [fail-unchanged] err != nil && calls(Send) == old(calls(Send)) ==> recv.value == old(recv.value) && recv.changeTime == old(recv.changeTime)
+//@   ensures [fail-result] err != nil ==> isnil(res)
+//@   // C01/C04: success stores the new value, returns it and publishes exactly one event carrying it
+//@   ensures [stored] err == nil ==> recv.value == res && !isnil(res)
+//@   ensures [one-event] err == nil ==> calls(Send) == old(calls(Send)) + 1
+//@   ensures [event-value] err == nil ==> istype(lastarg(Send, 2), *ValueChange) && cast(lastarg(Send, 2), *ValueChange).Value == res
+//@   ensures [event-time] err == nil ==> cast(lastarg(Send, 2), *ValueChange).ChangeTime == recv.changeTime
+//@   ensures [at-most-one-event] calls(Send) <= old(calls(Send)) + 1
+//@   // C07: the stored message is a fresh object, never the caller's message nor the previous stored one, and the
+//@   // previously stored message is left exactly as it was
+//@   ensures [fresh-store] err == nil ==> fresh(res) && res != value
+//@   ensures [old-untouched] !isnil(old(recv.value)) ==> msgval(old(recv.value)) == old(msgval(recv.value))
